@@ -19,5 +19,9 @@ CASES = [
  ('contracts.qualitative', QD, '    if idx == 0:\n        return 1', '    if idx == 0:\n        return idx + 1', None),
  ('contracts.labels', BD, '                    label_per_value.update({value: label})', '                    label_per_value[value] = label', None),
  ('contracts.labels', BD, 'group_of_values', 'leader', 'ALL'),
+ ('contracts.viability', BC, 'train_rates', 'rates_on_train', 'ALL'),
+ ('contracts.viability', BC, '            train_viable = min_freq_train and distinct_rates_train', '            train_viable = distinct_rates_train and min_freq_train', None),
+ ('contracts.viability', BC, '            if best_association is not None:\n                break', '            if best_association is None:\n                continue\n            break', None),
+ ('contracts.viability', BC, '        best_association, train_viable, dev_viable = (None,) * 3', '        best_association = None\n        train_viable = None\n        dev_viable = None', None),
  ('contracts.update_discretizer', BD, '        values_orders = {k: v for k, v in self.values_orders.items()}\n        order = values_orders[feature]', '        order = self.values_orders[feature]', None),
 ]
